@@ -1,7 +1,7 @@
 //! Runs a plan on the executor instance monomorphised for its (shape, N, M).
 
 use crate::exec::{RunOut, World};
-use crate::payload::{PKey, PVal, SimKey, SimVal, ZKey, ZVal};
+use crate::payload::{PKey, PVal, SimKey, SimVal, ZKey, ZVal, A64};
 use crate::plan::{Plan, Shape};
 
 type SK = SimKey<()>;
@@ -10,6 +10,8 @@ type LK = SimKey<[u64; 12]>;
 type LV = SimVal<[u64; 12]>;
 type BK = SimKey<Box<u64>>;
 type BV = SimVal<Box<u64>>;
+type AK = SimKey<A64>;
+type AV = SimVal<A64>;
 
 pub fn supported(p: &Plan) -> bool {
     crate::gen::MENU.iter().any(|(s, n, m)| *s == p.cfg.shape && *n == p.cfg.n && *m == p.cfg.m)
@@ -60,6 +62,7 @@ pub fn run_plan(p: &Plan) -> RunOut {
         (Shape::Boxed, 16, 2) => go!(BK, BV, 16, 2),
         (Shape::Large, 1, 4) => go!(LK, LV, 1, 4),
         (Shape::ZstVal, 0, 1) => go!(SK, ZVal, 0, 1),
+        (Shape::Aligned, 3, 2) => go!(AK, AV, 3, 2),
         (s, n, m) => panic!("no executor instance for shape {s:?} with capacities ({n}, {m})"),
     }
 }
